@@ -1,8 +1,8 @@
 #!/bin/bash
-# usage: blind_eval.sh <seeddir> <name> <verif-root>   -- confirm a seed and report which properties of the given checker tree detect it
-src="$1"; name="$2"; vroot="${3:-/verif}"
+# usage: blind_eval.sh <seeddir> <name> <verif-root> [base-commit]   -- confirm a seed and report which properties of the given checker tree detect it
+src="$1"; name="$2"; vroot="${3:-/verif}"; base_commit="${4:-HEAD}"
 wt=$(mktemp -d /tmp/bewt.XXXXXX); rmdir "$wt"
-git -C /repo worktree add --detach "$wt" HEAD -q || exit 9
+git -C /repo worktree add --detach "$wt" "$base_commit" -q || exit 9
 trap 'git -C /repo worktree remove --force "$wt" 2>/dev/null; rm -rf "$wt"' EXIT
 cd "$wt"
 base=$(/venv/bin/python "$src/demo.py" "$wt" >/dev/null 2>&1; echo $?)
